@@ -251,6 +251,21 @@ class Program:
 
 # ----------------------------------------------------------------------------- executor
 class Exec:
+    _cid_counter = 0
+
+    def using(self, prog):
+        """context manager: execute calls against another exported program (same symbolic source)"""
+        ex = self
+
+        class _Ctx:
+            def __enter__(self_):
+                self_.old = ex.p
+                ex.p = prog
+
+            def __exit__(self_, *a):
+                ex.p = self_.old
+        return _Ctx()
+
     def __init__(self, prog: Program, nbytes, *, debug_assertions=True, step_limit=400000, is_str=True,
                  time_budget=None):
         self.p = prog
@@ -283,6 +298,7 @@ class Exec:
         self.qidx = 0
         self._select_cache = {}
         self._inb_cache = {}
+        self.in_user_cb = 0
 
     # ---------------- solver
     def check(self, cond):
@@ -460,7 +476,7 @@ class Exec:
 
     def load_src(self, off, limit):
         ok = self.in_bounds(off, 1, limit)
-        self.events.append(('load', off, 1))
+        self.events.append(('load' if not self.in_user_cb else 'cbload', off, 1))
         if self.check(s_not(ok)):
             raise Violation('oob', f'out-of-bounds source read: offset {off} size 1 limit {limit}')
         return self.byte_at(off)
@@ -480,7 +496,8 @@ class Exec:
             v = self.decode_alloc(c['alloc'], 0, ty)
             if key is not None:
                 if isinstance(v, Agg):
-                    v.cid = len(self.p._const_cache) + 1
+                    Exec._cid_counter += 1
+                    v.cid = Exec._cid_counter
                 self.p._const_cache[key] = v
             return v
         raise EngineError('unsupported constant ' + k)
@@ -1105,17 +1122,24 @@ class Exec:
         if f is None:
             raise EngineError('unknown callee ' + str(key))
         name = f['name']
+        post = None
         for rx, cb in self.trace_hooks:
             if rx.search(name):
-                cb(self, f, args)
+                pf = cb(self, f, args)
+                if pf is not None:
+                    post = pf
         b = self.builtin_for(f)
         if b is not None:
             self.builtins_used.add(b.__name__[3:] if b.__name__.startswith('bi_') else b.__name__)
-            return b(self, f, args)
-        if f['body'] is None:
-            raise EngineError(f'no MIR body and no builtin for `{name}` (kind {f["kind"]})')
-        self.fn_seen.add(name)
-        return self.run_fn(f, args)
+            r = b(self, f, args)
+        else:
+            if f['body'] is None:
+                raise EngineError(f'no MIR body and no builtin for `{name}` (kind {f["kind"]})')
+            self.fn_seen.add(name)
+            r = self.run_fn(f, args)
+        if post is not None:
+            post(r)
+        return r
 
     def builtin_for(self, f):
         from . import builtins
@@ -1293,6 +1317,7 @@ class Exec:
             self.depth = 0
             self.stack = []
             self.path_max_depth = 0
+            self.in_user_cb = 0
             self.solver.push()
             self.solver.add(self.base)
             try:
